@@ -11,6 +11,20 @@ VERIF = os.path.dirname(os.path.dirname(os.path.abspath(__file__)))
 EXTRA = {"C18-a": ["C13"], "C01-b": ["C07"], "C07-a": ["C01"], "C12-b": ["C05"], "C05-a": ["C01"], "C04-b": ["C17"], "C19-b": ["C05"]}
 
 
+_baseline = {}
+
+
+def baseline(check):
+    """violation signatures the check reports on the clean tree (should be none): a mutant only counts as caught for new ones"""
+    if check not in _baseline:
+        r = subprocess.run([os.path.join(VERIF, "check"), check], env=dict(os.environ, VERIF_NO_EVIDENCE="1"), capture_output=True, text=True)
+        sigs = set(re.findall(r"^  clause=\S+ signature=(\S+)", r.stdout, re.M))
+        if sigs:
+            print("WARNING: %s is red on the clean tree: %s" % (check, sorted(sigs)), flush=True)
+        _baseline[check] = sigs
+    return _baseline[check]
+
+
 def main():
     only = sys.argv[1:]
     rows = []
@@ -24,6 +38,10 @@ def main():
                            capture_output=True, text=True)
         verdicts = dict(re.findall(r"^(C\d+) (CAUGHT|MISSED|ERROR\S*)", r.stdout, re.M))
         sigs = re.findall(r"signature=(\S+)", r.stdout)
+        for c in checks:
+            if verdicts.get(c) == "CAUGHT" and baseline(c) and not (set(sigs) - baseline(c)):
+                verdicts[c] = "MISSED"          # only signatures that the clean tree shows as well
+        sigs = [x for x in sigs if not any(x in baseline(c) for c in checks if c in _baseline)]
         meta = json.load(open(os.path.join(d, "meta.json")))
         meta["caught_by"] = sorted(c for c, v in verdicts.items() if v == "CAUGHT")
         meta["missed_by"] = sorted(c for c, v in verdicts.items() if v != "CAUGHT")
